@@ -54,6 +54,14 @@ CLAIMED["C12"] = dict(
     technique="Coq proof (induction on JSON trees, table lemmas by vm_compute) + extracted-model correspondence with an independent hashlib oracle",
 )
 
+CLAIMED["C15"] = dict(
+    category="proof",
+    text="Theorems in coq/Props/Properties_C15.v about Gallina models of jose_jws_hdr/jose_jwe_hdr, find_alg (JWS), jwe_hdr_set_new and the zip lookup: for every parameter name the merged header is first-of(protected, [shared unprotected,] per-recipient/unprotected) whether protected is an object, encoded text or absent; zip is read from the encoded protected header only; a caller-supplied alg is the one applied and the object is left as is; an inferred alg is the first suggestion in registry order and is written into the protected header; an inferred enc goes into protected while that is an object, else into shared unprotected. The suggestion hooks (all families) are transcribed in Jose/Suggest.v. Tie: extracted models vs the real functions on every presence pattern x protected form, every key type/size/curve with/without alg, password lengths 0..41, and the recording paths of sign / content-encrypt / wrap.",
+    design_ref="DESIGN.md section 3 C15",
+    note="Coq kernel; no axioms; header objects without duplicate names; primitives ideal in the recording models (which primitive runs behind a recorded name is C03/C04).",
+    technique="Coq proof (fold lemmas for json_object_update_missing, case analysis) + extracted-model correspondence",
+)
+
 NOT_YET = {}
 
 def main():
